@@ -11,7 +11,7 @@ RULE = ("every multiset of <=N (address,count) ranges (in every order of present
         "overlapping/nested/adjacent/duplicate shapes) x every reach x every limit; shatter over address x count x limit. "
         "non-trivial = distinct (ranges,reach,limit) where at least two input ranges interact (overlap, touch or lie "
         "within reach) or the output differs from the sorted input")
-BOUNDS_NOTE = "poller: every non-empty subset of 7 addresses in 3 banks x reach {1,3,100} x {no failure, one transient read failure at read k of cycle c, a register added later}, 4 poll cycles of the real poller_modbus._poller under a virtual clock"
+BOUNDS_NOTE = "poller: every non-empty subset of 7 addresses in 3 banks x reach {1,3,100} x {no failure, one transient read failure at read k of cycle c, a read failing in every cycle, a register added later} x failure kind {exception response, no response, connection error}, 4 poll cycles of the real poller_modbus._poller under a virtual clock"
 BOUNDS = {
     "quick": "multisets of <=3 ranges over 73-range alphabet, of 4 over the 24-range low cluster; reach {None,0,1,2,5,100}; limit {None,1,2,3}",
     "thorough": "multisets of <=4 ranges over the full 73-range alphabet; same reach/limit; shatter counts 0..2100",
@@ -100,12 +100,14 @@ def validate(out, want, ranges, reach, limit):
 POLL_ADDRS = [1, 2, 10001, 40001, 40002, 40004, 40010]
 
 
-def run_poller(addresses, reach, cycles, fail, add_later):
-    """fail: set of (cycle, k) -- the k-th read of that cycle raises ModbusException.  add_later: (cycle, address) or None.
+def run_poller(addresses, reach, cycles, fail, add_later, exc_kind="base"):
+    """fail: set of (cycle, k) -- the k-th read of that cycle raises a Modbus failure of exc_kind: "base" ModbusException (the device
+    answered with an exception), "io" ModbusIOException (no answer), "conn" ConnectionException.  add_later: (cycle, address) or None.
     -> [(kind, msg)]"""
     import cpppo
     from cpppo.remote import plc_modbus as pm
-    from pymodbus.exceptions import ModbusException
+    import pymodbus.exceptions as pe
+    ModbusException = {"base": pe.ModbusException, "io": pe.ModbusIOException, "conn": pe.ConnectionException}[exc_kind]
     bad = []
     clock = [1000.0]
     p = object.__new__(pm.poller_modbus)
@@ -176,7 +178,7 @@ def run_poller(addresses, reach, cycles, fail, add_later):
         pm.time, cpppo.misc.timer = real_time, real_timer
     if steps[0] > 5000:
         bad.append(("poller-no-progress", "poller did not complete %d cycles" % cycles))
-    desc = "addresses %r reach %r failures %r later %r" % (sorted(addresses), reach, sorted(fail), add_later)
+    desc = "addresses %r reach %r failures %r (%s) later %r" % (sorted(addresses), reach, sorted(fail), ModbusException.__name__, add_later)
     for cyc in range(cycles):
         reads = log.get(cyc, [])
         must = set(addresses)                     # registers that certainly were known before this cycle's merge
@@ -312,23 +314,26 @@ def poller_cases(tier):
             fails = [frozenset()] + [frozenset({(c, k)}) for c in (0, 1) for k in (0, 1, 2)]
             if tier != "quick":
                 fails += [frozenset({(0, 0), (1, 0)}), frozenset({(1, 0), (1, 1)}), frozenset({(0, 1), (2, 0)})]
+            # a read that fails in EVERY cycle (the first / the second of each cycle): the other ranges must go on being polled
+            fails += [frozenset((c, 0) for c in range(4)), frozenset((c, 1) for c in range(4))]
             for f in fails:
-                yield sub, reach, 4, f, None
-            yield sub, reach, 4, frozenset({(1, 0)}), (1, 40003)
-            yield sub, reach, 4, frozenset(), (0, 3)
+                for ek in (("base", "io", "conn") if f else ("base",)):
+                    yield sub, reach, 4, f, None, ek
+            yield sub, reach, 4, frozenset({(1, 0)}), (1, 40003), "base"
+            yield sub, reach, 4, frozenset(), (0, 3), "base"
 
 
 def poller_shard(acc, item, tier, seed):
     _, k, K = item
-    for i, (sub, reach, cycles, f, later) in enumerate(poller_cases(tier)):
+    for i, (sub, reach, cycles, f, later, ek) in enumerate(poller_cases(tier)):
         if i % K != k:
             continue
         acc.ev()
         if f or later:
             acc.ntc()
         acc.outcome("poller:%s" % ("failure" if f else "clean"))
-        for kind, msg in run_poller(sub, reach, cycles, set(f), later):
-            acc.violation(kind, {"op": "poller", "addresses": list(sub), "reach": reach, "cycles": cycles,
+        for kind, msg in run_poller(sub, reach, cycles, set(f), later, ek):
+            acc.violation(kind, {"op": "poller", "addresses": list(sub), "reach": reach, "cycles": cycles, "exc_kind": ek,
                                  "fail": sorted(list(x) for x in f), "later": list(later) if later else None}, msg)
     acc.sample({"op": "poller", "addresses": [1, 40001, 40002], "reach": 100, "cycles": 4, "fail": [[1, 0]], "later": None})
 
@@ -370,7 +375,7 @@ def replay(case):
     if case["op"] == "poller":
         later = tuple(case["later"]) if case.get("later") else None
         return [m for k, m in run_poller(tuple(case["addresses"]), case["reach"], case["cycles"],
-                                         set(tuple(x) for x in case["fail"]), later)]
+                                         set(tuple(x) for x in case["fail"]), later, case.get("exc_kind", "base"))]
     if case["op"] == "merge":
         bad, _ = check_merge(tuple(tuple(x) for x in case["ranges"]), case["reach"], case["limit"])
     else:
